@@ -33,7 +33,9 @@ func CheckXNode(sh Shape, ms schema.ModelSet, v SView) (out []AMism, nodes int) 
 	walk = func(x xutils.XpathNode, w SView, isRoot bool) {
 		nodes++
 		at := strings.Join(w.Xp, "/")
-		mis := func(what string, want, got interface{}) { out = append(out, AMism{At: at, What: what, Want: want, Got: got}) }
+		mis := func(what string, want, got interface{}) {
+			out = append(out, AMism{At: at, What: what, Want: want, Got: got})
+		}
 		if !isRoot {
 			if x.XName() != w.N {
 				mis("name", w.N, x.XName())
